@@ -80,6 +80,14 @@ def apply_action(w, ss, rejected, a):
         return True
     if a == 'tick':
         return w.tick()
+    if a == 'close_post_last':
+        # the YOUNGEST live session ends with a CLOSE packet (it then sits closed-but-unreaped behind older live ones)
+        cand = [x for x in ss if not x.ended and not x.vanished and x.kind == 'polling']
+        if len(cand) < 2:
+            return False
+        peer.post(w, cand[-1].sid, '1')
+        cand[-1].ended = True
+        return True
     if s is None:
         return False
     if a == 'close_post':
@@ -262,6 +270,35 @@ def run_history(impl, hist, out, first=None):
 
 
 
+def run_shielded(impl, hist, out):
+    """After the history, the oldest session has a healthy client (it polls and answers every PING) while every other
+    session falls silent: within the heartbeat bound the table holds exactly that one session."""
+    w = peer.make_world(impl, server_kwargs=dict(ping_interval=INTERVAL2, ping_timeout=TIMEOUT, monitor_clients=True),
+                        behaviour=RejectOnHeader())
+    ss, rejected = [], []
+    try:
+        for a in hist:
+            if not apply_action(w, ss, rejected, a):
+                return None
+        if len(ss) < 2 or ss[0].kind != 'polling' or ss[0].ended or ss[0].vanished or ss[0].half:
+            return None
+        if any(not r.done and r.method == 'GET' for r in w.reqs):
+            return None          # the healthy client starts from a state without a poll of its own outstanding
+        t0 = w.now
+        ok = peer.keepalive(w, ss[0].sid, t0 + INTERVAL2 + 3 * TIMEOUT + 2 * TIMEOUT + 0.5 + INTERVAL2)
+        table = sorted(w.table_sids())
+        if not ok or ss[0].sid not in w.live_sids():
+            V(out, impl, 'live_peer_dropped', 'shielded', 'the healthy oldest session was dropped (disconnects %r)'
+              % [(e[1][-4:], e[2]) for e in w.events if e[0] == 'disconnect'], ('@shield',) + tuple(hist))
+        elif table != [ss[0].sid]:
+            V(out, impl, 'session_leaked', 'shielded', 'the oldest session is healthy, the others silent for %.1fs: table %r, want only %r'
+              % (w.now - t0, [x[-4:] for x in table], ss[0].sid[-4:]), ('@shield',) + tuple(hist))
+        return True
+    finally:
+        _STEPS[0] += w.nstep
+        w.teardown()
+
+
 # ------------------------------------------------------------------ user data under concurrent handlers
 
 class UserData(core.Scenario):
@@ -334,6 +371,10 @@ def _work(chunk):
     _STEPS[0] = 0
     for impl, hist in chunk:
         try:
+            if hist and hist[0] == '@shield':
+                if run_shielded(impl, hist[1:], out):
+                    n += 1
+                continue
             if run_history(impl, hist, out):
                 n += 1
                 if hist and hist[-1] in ('close_post', 'bad_post', 'disconnect_api', 'ws_close') and len(hist) <= 3:
@@ -363,6 +404,12 @@ def run(ctx):
     import itertools as _it
     for k in range(0, (3 if ctx.quick else 4) + 1):
         hists += [('@ping',) + t for t in _it.product(ACTIONS2, repeat=k)]
+    for k in range(2, 4):
+        hists += [('@shield', 'open') + t for t in _it.product(ACTIONS, repeat=k - 1)]
+    # sessions that come and go while the monitor is in the middle of a sweep (its pauses between two sessions are deadlines
+    # that 'tick' stops at): the youngest closes, time moves to the next deadline, a new session opens, ...
+    for k in range(1, 5):
+        hists += [('open', 'open') + t for t in _it.product(['close_post_last', 'tick', 'open', 'poll'], repeat=k)]
     jobs = [(impl, h) for impl in ('sync', 'async') for h in hists]
     res = parallel.pmap_chunks(_work, parallel.split(jobs, ctx.workers * 8), ctx.workers, ctx.seed, maxtasks=4)
     n = 0
@@ -394,7 +441,7 @@ def run(ctx):
                 'enabled are pruned) plus one complete seed-chosen slice one level deeper, plus every history of <= 3 (thorough 4) '
                 'actions over %r started from the prepared state "first PING outstanding" (ping_interval=2); each followed by API '
                 'probes with never-issued / rejected / disconnected ids, two monitor sweeps and silence past the heartbeat bound; '
-                'both servers; plus a schedule search (free switching, <= 2 preemptions, scheduling points between creating, entering and leaving the session() context) over two / three sessions whose handlers use session(), save_session() and get_session() at the same time: each session keeps exactly its own data. states = distinct canonical digests of the world reached by the histories (before the epilogue); '
+                'both servers; histories of <= 3 actions whose oldest session then keeps a healthy client (polling, answering PINGs) while the others fall silent - the table must end up holding exactly that session; every history of <= 4 further actions over {close the youngest, tick, open, poll} after two opens (sessions coming and going in the middle of a monitor sweep); plus a schedule search (free switching, <= 2 preemptions, scheduling points between creating, entering and leaving the session() context) over two / three sessions whose handlers use session(), save_session() and get_session() at the same time: each session keeps exactly its own data. states = distinct canonical digests of the world reached by the histories (before the epilogue); '
                 'transitions = scheduler steps executed; traces = enabled histories.' % (depth, ACTIONS, ACTIONS2),
         'exhaustive': True, 'bound_completed': depth, 'violating_cases_total': nv,
         'concurrent_user_data': {'scenarios': len(ups), 'executions': ust.executions, 'distinct_outcomes': len(ust.outcomes),
@@ -417,7 +464,10 @@ def replay(ctx, payload):
             print('REPLAY VIOLATION:', v)
         return 1 if ex.violations else 0
     out = []
-    print('enabled:', run_history(r['impl'], tuple(r['history']), out))
+    if r['history'] and r['history'][0] == '@shield':
+        print('enabled:', run_shielded(r['impl'], tuple(r['history'][1:]), out))
+    else:
+        print('enabled:', run_history(r['impl'], tuple(r['history']), out))
     for v in out:
         print('REPLAY VIOLATION:', v.text)
     return 1 if out else 0
